@@ -36,6 +36,13 @@ CLAIMED["C01"] = dict(
     design_ref="§5 C01, §3.3",
 )
 
+CLAIMED["C08"] = dict(
+    category="exploration",
+    technique="bounded-exhaustive lattice enumeration of every implementation pair x state lattice x derivative keys; differential oracle",
+    text="Every pair of code paths named in the property (functional-as-bulk vs equation of state for every FMT version, enum/ideal-gas wrappers vs bare model, ePC-SAFT without ions vs PC-SAFT, SAFT-VRQ Mie FH0 vs SAFT-VR Mie, closed-form vs iterative association on every dual part, from_segments vs combined record, Peng-Robinson vs the SI closed form) is evaluated on the whole state lattice for A, p, s, mu and all second-order keys and compared pairwise.",
+    design_ref="§5 C08",
+)
+
 NOT_YET = "check not built yet (work in progress; see DESIGN.md §9 build order) - not a claim that the technique cannot apply"
 
 ALL = ["C%02d" % i for i in range(1, 21)]
